@@ -99,7 +99,14 @@ class D(Driver):
                 target = _leaf(o.path) if o is not None else None
             if target is None or target not in w.notified:
                 continue
-            if prio.get(target, 0) < 0:
+            # (an object that is urgent under the name it had when it was notified stays urgent for that change: a rename
+            #  event of an id-addressed account carries no path, the entry is picked under its old name)
+            names = {target}
+            for sc in w.scripts:
+                for op in sc:
+                    if op[0] == "rename" and _leaf(op[2]) in names:
+                        names.add(_leaf(op[1]))
+            if min(prio.get(n_, 0) for n_ in names) < 0:
                 continue
             if t + 1e-9 < w.notified[target] + A_:
                 vs.append(viol("propagated-before-aged", "%s:%s" % (name, target),
